@@ -90,6 +90,8 @@ def check_property(prop, tier, runs, level_note, assumptions):
                   exhaustive=True, not_run=0, min_bound_completed=None, wall_s=round(wall, 2))
         for row in rows:
             if row.get("summary"):
+                if row.get("introspection"):
+                    st["introspection"] = row["introspection"]
                 continue
             res = row.get("result")
             if row["status"] == 3:
